@@ -132,4 +132,57 @@ theorem undigits_replicate (n r : Nat) (ds : List Nat) (h : ds.length = n) :
 example : BqVerif.Kron.undigits (List.replicate 1 2) [1, 1] ≠ BqVerif.Graph.undigits 2 [1, 1] := by
   decide
 
+/-! ### (D) the embedded swap gate is the digit swap -/
+/-- `gen_swap_unitary(r)` as a monomial matrix -/
+def swapMono (r : Nat) : Mono := (List.range (r * r)).map (fun c => (genSwapRow r c, 0))
+
+theorem swapMono_length (r : Nat) : (swapMono r).length = r * r := by simp [swapMono]
+
+theorem swapMono_at (r x y : Nat) (hx : x < r) (hy : y < r) :
+    (swapMono r).at (x * r + y) = (y * r + x, 0) := by
+  have hlt : x * r + y < r * r := by
+    have : (x + 1) * r ≤ r * r := Nat.mul_le_mul_right r hx
+    rw [Nat.add_mul] at this; omega
+  unfold swapMono
+  rw [at_map_range _ _ _ hlt]
+  simp only [genSwapRow]
+  rw [Nat.mul_comm x r, Nat.mul_add_mod, Nat.mod_eq_of_lt hy, Nat.mul_add_div (by omega),
+    Nat.div_eq_of_lt hy, Nat.add_zero]
+
+theorem digits_pair (r x y : Nat) (hx : x < r) (hy : y < r) :
+    BqVerif.Kron.digits [r, r] (x * r + y) = [x, y] := by
+  simp only [BqVerif.Kron.digits, List.foldr_cons, List.foldr_nil]
+  rw [Nat.mul_comm x r, Nat.mul_add_mod, Nat.mod_eq_of_lt hy, Nat.mul_add_div (by omega),
+    Nat.div_eq_of_lt hy, Nat.add_zero, Nat.mod_eq_of_lt hx]
+
+theorem embed_length (m : Mono) (loc radixes : List Nat) :
+    (embed m loc radixes).length = dim radixes := by simp [embed]
+
+theorem embed_swap_at (n r a b : Nat) (ha : a < n) (hb : b < n) (col : Nat) (hcol : col < r ^ n) :
+    (embed (swapMono r) [a, b] (List.replicate n r)).at col =
+      (BqVerif.Graph.undigits r (swapDigits (BqVerif.Graph.digits r n col) a b), 0) := by
+  unfold embed
+  simp only
+  rw [at_map_range _ _ _ (by rw [dim_replicate]; exact hcol), digits_replicate]
+  have hlen := BqVerif.Graph.length_digits r n col
+  have hdl := BqVerif.Graph.digits_lt_of_lt r n col hcol
+  have hda : (BqVerif.Graph.digits r n col).getD a 0 < r := by
+    rw [List.getD_eq_getElem?_getD, List.getElem?_eq_getElem (by omega), Option.getD_some]
+    exact hdl _ (List.getElem_mem _)
+  have hdb : (BqVerif.Graph.digits r n col).getD b 0 < r := by
+    rw [List.getD_eq_getElem?_getD, List.getElem?_eq_getElem (by omega), Option.getD_some]
+    exact hdl _ (List.getElem_mem _)
+  have hsub : [a, b].map (fun q => (List.replicate n r).getD q 1) = [r, r] := by
+    simp [List.getD_eq_getElem?_getD, List.getElem?_replicate, ha, hb]
+  rw [hsub]
+  have hsc : BqVerif.Kron.undigits [r, r]
+      ([a, b].map (fun q => (BqVerif.Graph.digits r n col).getD q 0)) =
+      (BqVerif.Graph.digits r n col).getD a 0 * r + (BqVerif.Graph.digits r n col).getD b 0 := by
+    simp [BqVerif.Kron.undigits]
+  rw [hsc, swapMono_at r _ _ hda hdb, digits_pair r _ _ hdb hda]
+  have hset : setDigits (BqVerif.Graph.digits r n col) [a, b]
+      [(BqVerif.Graph.digits r n col).getD b 0, (BqVerif.Graph.digits r n col).getD a 0] =
+      swapDigits (BqVerif.Graph.digits r n col) a b := by
+    simp [setDigits, swapDigits]
+  rw [hset, undigits_replicate n r _ (by rw [BqVerif.Graph.length_swapDigits, hlen])]
 end BqVerif.Kron
